@@ -1036,11 +1036,12 @@ class SymReal(SymNum):
         return SymInt(z3.If(self.t >= 0, _floor_real(self.t), -_floor_real(-self.t)))
 
     def __round__(self, ndigits=None):
-        if ndigits is not None:
-            raise Unsupported("round(float, ndigits) on symbolic value")
+        if ndigits is not None and not (isinstance(ndigits, int) and ndigits == 0):
+            raise Unsupported("round(float, ndigits != 0) on symbolic value")
         half = self.t + z3.RealVal("1/2")
         f = _floor_real(half)
-        return SymInt(z3.If(z3.And(z3.ToReal(f) == half, f % 2 != 0), f - 1, f))
+        r = z3.If(z3.And(z3.ToReal(f) == half, f % 2 != 0), f - 1, f)  # ties to even
+        return SymInt(r) if ndigits is None else SymReal(z3.ToReal(r))
 
     def is_integer(self):
         return SymBool(z3.ToReal(_floor_real(self.t)) == self.t)
